@@ -4,7 +4,7 @@ from . import core, conn, hist
 RULE = ("every ordered pair (A, B) of distinct commands from the pool, session-less (all commands allowed by the simulated BMC) and "
         "inside a session, under three reply-misdelivery patterns: B's first read returns a duplicate of A's reply; A's reply is "
         "delayed and arrives at B's first read (the duplicate produced by a retransmission after a slow reply); the delay persists "
-        "over a third command; session-less additionally: B answered node busy, then a stray duplicate of A's reply, then silence "
+        "over a third command; a duplicate of a REFUSAL (permanent non-zero code) of A arrives at B; three stale replies in a row; session-less additionally: B answered node busy, then a stray duplicate of A's reply, then silence "
         "until B's context expires.  predicate: the value each call returns is the decoding of the BMC's own answer to *that* call "
         "(completion code and response data logged by the BMC), never of another command's reply; tie: the Coq retry model "
         "reproduces transmissions and results.  distinct by (A, B, pattern, connection kind)")
@@ -39,7 +39,7 @@ def run(ch, build):
             pairs = rng.sample(pairs, min(len(pairs), 150))
         for k, (a, b) in enumerate(pairs):
             su = hist.SUITES[k % 9]
-            for pattern in ("dup", "delay", "delay3") + (("busystray",) if not session else ()):
+            for pattern in ("dup", "delay", "delay3", "errstray", "threestrays") + (("busystray",) if not session else ()):
                 scn = {"bmc": conn.default_bmc(seed=k + 1, suites=[[100, su[0], su[1], su[2]]], loose=True), "timeout_ms": 40, "steps": []}
                 cn = "session" if session else "sessionless"
                 if session:
@@ -49,6 +49,17 @@ def run(ch, build):
                     scn["steps"] += [{"op": "cmd", "conn": cn, "cmd": a, "script": ["ok"]},
                                      {"op": "cmd", "conn": cn, "cmd": b, "script": ["dupprev", "ok"]},
                                      {"op": "cmd", "conn": cn, "cmd": c3, "script": ["ok"]}]
+                elif pattern == "errstray":
+                    # A is refused with a permanent completion code; a duplicate of that refusal arrives at B's first read
+                    code = rng.choice([0xc1, 0xc9, 0xcc, 0xd4, 0xd5, 0xff])
+                    scn["steps"] += [{"op": "cmd", "conn": cn, "cmd": a, "script": ["cc:%d" % code]},
+                                     {"op": "cmd", "conn": cn, "cmd": b, "script": ["dupstep", "ok"]},
+                                     {"op": "cmd", "conn": cn, "cmd": c3, "script": ["ok"]}]
+                elif pattern == "threestrays":
+                    # three stale replies to A in a row before B's own answer
+                    scn["steps"] += [{"op": "cmd", "conn": cn, "cmd": a, "script": ["ok"]},
+                                     {"op": "cmd", "conn": cn, "cmd": b, "script": ["dupstep", "dupstep", "dupstep", "ok"]},
+                                     {"op": "cmd", "conn": cn, "cmd": c3, "script": ["dupstep", "ok"]}]
                 elif pattern == "busystray":
                     # B is answered "node busy", its retransmission reads a stray duplicate of A's reply (not an answer to
                     # B), then nothing arrives until B's context expires: B must end in an error, never in A's value
